@@ -33,7 +33,7 @@ CLAIMS = {
   note="SmtSyntaxFns.tla definitions; semantic consequences over bounded interpretations",
   tech=TECH + "TLC-generated terms analysed by pySMT oracles, reports validated by TLC against structural definitions and Eval", ref="DESIGN.md 3 C12"),
  "C10": dict(
-  text="TLC enumerates Boolean structure over theory atoms (depth <= 3, all connectives in both polarities, constants, binders over Bool / BV / Int incl. nested, shadowing, free-and-bound), arithmetic terms and equality conjunctions; nnf, prenex, aig, TimesDistributor, the partitions, propagate_toplevel and both Boolean quantifier eliminators are run and every result is validated by TLC against RewriteContract: equivalence under every interpretation (Eval; Bool/BV binders exact) plus the advertised shape predicates of NormalForms.tla.",
+  text="TLC enumerates Boolean structure over theory atoms (depth <= 3, all connectives in both polarities, constants, binders over Bool / BV / Int incl. nested, shadowing, free-and-bound), arithmetic terms and equality conjunctions; nnf, prenex, aig, TimesDistributor, the partitions, propagate_toplevel and both Boolean quantifier eliminators are run and every result is validated by TLC against RewriteContract: equivalence under every interpretation (Eval; Bool/BV binders exact) plus the advertised shape predicates of NormalForms.tla. Rule models of the NNFizer, the AIGer and the PrenexNormalizer (Rewriters.tla: NnfM, AigM, PrenexM) are model-checked against the same contract on whole layers (MC_Rewriters) and bound to the code by Trace_Rewr (outputs equal up to commutative order and a bijection of fresh names; differences are MODEL-DRIFT).",
   note="NormalForms.tla shape predicates; Int binders over three finite domains; interpretations bounded by carriers",
   tech=TECH + "TLC-enumerated formulas rewritten by pySMT, results validated by TLC for equivalence (Eval) and shape", ref="DESIGN.md 3 C10"),
  "C11": dict(
@@ -42,22 +42,22 @@ CLAIMS = {
   tech=TECH + "TLC-enumerated formulas converted by pySMT, model-by-model equisatisfiability validated by TLC with Eval", ref="DESIGN.md 3 C11"),
  "C13": dict(
   text="(A) TLC model-checks the implementation-shaped TheoryLE/TheoryCombine over all triples of valid theories of the interacting flags: partial order, combine is an upper bound, order respects Expressible. (B/C) real get_logic/get_theory results on TLC-generated formulas are validated against the independent feature extraction Features() (bound-variable sorts, operator families, non-linearity, const arrays, custom sorts, quantifiers); the real <= on all named logics (dumped from the code at check time), combine on the closure of reachable theories, and get_closer_logic/most_generic_logic on enumerated supported-logic subsets are validated by TLC against the order axioms and selection contracts. Factory.get_solver is replayed on solver doubles that only declare LOGICS (random solver tables, preference lists, named / unnamed requests) and validated by FactoryContract, a refinement of the closest-logic contract: the solver instantiated supports the request, is the first supporting one of the preference list, and is handed its closest logic.",
-  note="Features()/Expressible() of Logics.tla; difference-logic refinements are not among the listed features; NoLogicAvailableError is an allowed answer of get_logic",
+  note="Features()/Expressible() of Logics.tla; arithmetic beyond difference logic is derived from the linear form of the atoms (LinOf / BeyondDifference); NoLogicAvailableError is an allowed answer of get_logic",
   tech=TECH + "design model checking of the order + trace validation of recorded detection / order / selection results", ref="DESIGN.md 3 C13"),
  "C16": dict(
   text="(A) TLC explores every command history (length <= 6) of the implementation-shaped TrackingSolver model (pending_pop, backtrack points, clear_pending_pop decorator) and checks it refines the abstract SMT-LIB assertion stack. (B/C) all legal histories of the abstract machine up to length 3-4 (plus TLC-simulated histories of length 14) are replayed into real SmtLibScript objects built by the real parser (get_last_formula with goals read for every prefix) and into real IncrementalTrackingSolver subclasses incl. the in-tree Portfolio; every observation is validated by TLC against the abstract state (live assertions, live objectives, soft groups). Assert commands are also issued through add_assertions with lists, generators and iterators.",
   note="AssertionStack.tla is the SMT-LIB assertion-stack semantics with objectives / soft assertions scoped by level; solver doubles have no-op _push/_pop/_solve",
   tech=TECH + "design model checking (refinement) + TLC-enumerated histories replayed into scripts/solvers, observations validated by TLC", ref="DESIGN.md 3 C16"),
  "C04": dict(
-  text="(A) TLC explores all histories of constructor calls (59 documented spellings / normalisations, length <= 3) in the implementation-shaped FormulaManager model (node table keyed by content, caches keyed by Python value equality) and checks OneObjectPerStructure, AccessorFidelity, TableInjective, CachesAgree. (B/C) TLC-enumerated (all singles, ordered pairs) and TLC-simulated (length 7) call histories are replayed in fresh Environments interleaved with unrelated constructions; identity classes and accessor read-back after every call are validated by TLC against the denotations of FMCalls.tla. normalize() into a second environment is validated for structural identity, no shared FNode objects, membership in the target manager. Numbers beyond TLC's 32-bit integers (2^60, the double nearest to 1/3) are denoted symbolically by their exact spelling; one long-lived target environment receives the copies of every source environment.",
+  text="(A) TLC explores all histories of constructor calls (93 documented spellings / normalisations incl. the infix / method routes and lazy iterables, length <= 3) in the implementation-shaped FormulaManager model (node table keyed by content, caches keyed by Python value equality) and checks OneObjectPerStructure, AccessorFidelity, TableInjective, CachesAgree. (B/C) TLC-enumerated (all singles, ordered pairs) and TLC-simulated (length 7) call histories are replayed in fresh Environments interleaved with unrelated constructions; identity classes and accessor read-back after every call are validated by TLC against the denotations of FMCalls.tla. normalize() into a second environment is validated for structural identity, no shared FNode objects, membership in the target manager. Numbers beyond TLC's 32-bit integers (2^60, the double nearest to 1/3) are denoted symbolically by their exact spelling; one long-lived target environment receives the copies of every source environment.",
   note="FMCalls.tla denotations are the documented spellings/normalisations; array-value assignment order (by object address) is abstracted by key-sorting",
   tech=TECH + "design model checking of the hash-consing state machine + TLC-generated call histories replayed on FormulaManager, identity/read-back validated by TLC", ref="DESIGN.md 3 C04"),
  "C20": dict(
   text="(A) TLC model-checks the implementation-shaped DagWalker machine (explicit stack, memo, expand/compute phases, failure path, one-shot memo) for every rooted DAG shape (4 nodes quick / 5 thorough, fan-out <= 2): VisitOnce, PushBound, ChildrenFirst, FailureTransparent and termination (liveness under weak fairness); the pre-fix configuration must yield the known counterexample (vacuity guard). (B/C) the same shapes, instantiated with every nestable operator family, are fed to the real walkers whose per-instance function tables are wrapped from outside; TLC validates every logged callback sequence (each node at most K times, children first, only and all reachable nodes). Scaling families beyond TLC's reach (20,000-deep chains, 2^60-tree diamonds) are run through construction, simplify, substitute, oracles, get_logic, rewriters, DAG printing and re-parsing and validated for success and callbacks <= K * distinct nodes. Expansions (pops of unexpanded stack entries) are logged by wrapping _push_with_children_to_stack and bounded by the incoming edges; theory DAGs are also walked below an atom by the Boolean-level walkers. Collections built by callbacks, all six size measures and one full-depth chain are part of the quick tier.",
-  note="the absolute nesting depth reached is an observation on the interpreter; the algorithmic claims (visit-once, no per-level recursion) are model-checked and trace-validated. Parser work is measured by consumed text (it has no walker).",
+  note="the absolute nesting depth reached is an observation on the interpreter; the algorithmic claims (visit-once, no per-level recursion) are model-checked and trace-validated. While the parser reads chains of define-fun the callbacks of the environment's type checker, substituter and simplifier are counted; rejecting an application on top of a 40-level diamond must not walk the tree expansion.",
   tech=TECH + "design model checking of the walker machine over all DAG shapes + trace validation of real callback sequences and scaling runs", ref="DESIGN.md 3 C20"),
  "C14": dict(
-  text="Abstract spec (Environment.tla): every query/transformation is a pure function of its arguments; the state kept between calls is unobservable. (A) MC_Walker checks memo reuse across consecutive walks on a long-lived walker over every DAG shape. (B/C) TLC enumerates call histories (all sequences of length <= 2 over a 20-call alphabet, simulated length 8); each is run in one environment followed by a 20-probe suite, the suite alone in a fresh twin; TLC validates pairwise equality up to commutative-argument order and a bijection of fresh names (ACEq / Bijections in TLA+), and that repeating a formula-valued call returns the very same object. A TLC-generated shared-subterm family (one term per two-operator shape: all analyses of T, then of T's sub-terms and T again, vs a fresh twin that only built T) exposes oracles that mutate memoised result objects.",
+  text="Abstract spec (Environment.tla): every query/transformation is a pure function of its arguments; the state kept between calls is unobservable. (A) MC_Walker checks memo reuse across consecutive walks on a long-lived walker over every DAG shape. (B/C) TLC enumerates call histories (all sequences of length <= 2 over a 23-call alphabet, simulated length 8); each is run in one environment followed by a 30-probe suite (two execution orders), the suite alone in a fresh twin; TLC validates pairwise equality up to commutative-argument order and a bijection of fresh names (ACEq / Bijections in TLA+), and that repeating a formula-valued call returns the very same object. A TLC-generated shared-subterm family (one term per two-operator shape: all analyses of T, then of T's sub-terms and T again, vs a fresh twin that only built T) exposes oracles that mutate memoised result objects.",
   note="harness/envcalls.py call catalogue (4 formulas sharing sub-DAGs); raw Theory objects are probed to expose aliasing of memoised values",
   tech=TECH + "TLC-enumerated call histories replayed against twin environments, results validated by TLC up to AC / fresh-name equality", ref="DESIGN.md 3 C14"),
  "C15": dict(
